@@ -210,6 +210,9 @@ func cmdCheck(args []string) int {
 				notes = append(notes, fe.fnName()+": postcondition assumed, not verified against the body: "+en.Src)
 			}
 		}
+		if c.FrameAssumed {
+			notes = append(notes, fe.fnName()+": write frame (assigns clause) assumed, not verified against the body")
+		}
 		if c.AssumePre {
 			notes = append(notes, fe.fnName()+": the preconditions of its callees are assumed, not proved (assumepre)")
 		} else if len(c.AssumePreOf) > 0 {
